@@ -315,7 +315,10 @@ def dbeta(x, shape1, shape2, log=False):
     See
     https://stat.ethz.ch/R-manual/R-patched/library/stats/html/Beta.html
     """
-    return st.beta.pdf(x, shape1, shape2)
+    if log:
+        return st.beta.logpdf(x, shape1, shape2)
+    else:
+        return st.beta.pdf(x, shape1, shape2)
 
 def rbeta(n, shape1, shape2, seed=None):
     """
